@@ -39,6 +39,12 @@ def run(rep, ctx):
         borrow(rep, c08.r5_type_error, ctx, "C08.R5", "C05.R5")
     except AnalysisError as e:
         rep.error("C05.R5", str(e))
+    from . import c20
+    rep.rule("C05.R9", "the joined composing units that the dimension comparison relies on sum the exponents of every entry per unit (shared with C20.R5)")
+    try:
+        borrow(rep, c20.r5_sources, ctx, "C20.R5", "C05.R9", keep=lambda o: o.key.startswith("joined-exponents"))
+    except AnalysisError as e:
+        rep.error("C05.R9", str(e))
     rep.run_rule("C05.R6", "a simple Quantity stores a unit only after CheckCategoryUnit accepted it for the category", r6_quantity_init, ctx)
     rep.run_rule("C05.R8", "a derived Quantity is created only after every (category, unit) entry was checked against the category's quantity type", r8_create_derived, ctx)
     rep.run_rule("C05.R7", "failed or successful operations write nothing: registry-pure entry points, operands' composing maps never reached by a sink", r7_change_nothing, ctx)
